@@ -1,6 +1,7 @@
 SPECIFICATION Spec
 CONSTANTS
   Depth = 3
+  LongInput = FALSE
   Wide = FALSE
 INVARIANTS Agree EmitInv
 CHECK_DEADLOCK FALSE
